@@ -383,12 +383,17 @@ STRING_VALUES = [
 _QUOTE_FEATURES = ["", "'''", '"""', "''' " + '"""']
 _LAYOUTS = ["{q}x", "a{q}\nb", " a{q}\n b", "a{q}\n", "\n{q}a", "a\n\n{q}b", "  a{q}\n\n  b", " {q}\n", "a\n {q}",
             # every line led by white space that is not a blank (tab, ideographic space, no-break space, form feed): kept, not indentation
-            "\ta{q}\n\tb", "\u3000a{q}\n\u3000b", "\xa0a\n\xa0{q}b", " \ta{q}\n \tb", "\x0ca\n\x0c{q}"]
+            "\ta{q}\n\tb", "\u3000a{q}\n\u3000b", "\xa0a\n\xa0{q}b", " \ta{q}\n \tb", "\x0ca\n\x0c{q}",
+            # characters str.splitlines() takes for line ends, inside a line; a carriage return without a line feed
+            "a\x0bb{q}\nc\u2028d\x85e", "a\rb{q}\nc"]
 for _q in _QUOTE_FEATURES:
     for _l in _LAYOUTS:
         _v = _l.replace("{q}", _q)
         if _v not in STRING_VALUES:
             STRING_VALUES.append(_v)
+# a carriage return in front of a line feed: not representable (known finding); kept in the table because before repair 8c6c306 it was
+# printed as a multi line literal and silently lost
+STRING_VALUES.append("a\r\nb")
 MARK_NAMES = ["m", "it's", 'say "hi"', "a\nb", "with, comma", "a > b", ""]
 
 
